@@ -860,9 +860,13 @@ class TextXMetaModel(DebugPrinter):
             ]
             # Only the models loaded by this call are dropped. Models
             # cached by earlier successful loads stay.
-            loaded_here = [
-                m for m in models if not any(m is c for c in cached_before)
-            ]
+            loaded_here = getattr(
+                getattr(model, "_tx_parser", None), "_models_of_load", None
+            )
+            if loaded_here is None:
+                loaded_here = [
+                    m for m in models if not any(m is c for c in cached_before)
+                ]
             remove_models_from_repositories(models, loaded_here)
             for m in loaded_here:
                 _abort_model_construction(m)
